@@ -229,6 +229,9 @@ def run_check(pid, modname, tier, seed):
     bind_repo()
     mod = importlib.import_module(modname)
     cases = list(mod.enumerate_cases(tier, seed))
+    if os.environ.get("GBMC_FAST") and len(cases) > 45:
+        # mutation analysis of the checks (tools/mutation_sweep.py): a third of the cases, never used for evidence
+        cases = cases[:15] + cases[15::3]
     timeout = getattr(mod, "CASE_TIMEOUT", {"quick": 120, "thorough": 900})[tier]
     findings = load_findings(pid)
 
